@@ -52,10 +52,10 @@ func C07Spec(quick bool) Spec {
 					ctx := PreparedSeed("prepared").Build(c)
 					c.Fund(ctx, P, sdk.NewCoins(coin("uregen", 2), coin(IBC, 10)))
 					acts := []*explore.Action{
-						Sell(B, B1, "2", coin("uregen", 3), true, nil),         // order 4
-						Sell(C, B1, "1.5", coin(IBC, 7), true, nil),            // order 5
-						Sell(C, B2, Eps, coin("uregen", 1000003), true, nil),   // order 6
-						Sell(B, B2, "2", coin("uregen", 1), false, nil),        // order 7: auto-retire forced
+						Sell(B, B1, "2", coin("uregen", 3), true, nil),       // order 4
+						Sell(C, B1, "1.5", coin(IBC, 7), true, nil),          // order 5
+						Sell(C, B2, Eps, coin("uregen", 1000003), true, nil), // order 6
+						Sell(B, B2, "2", coin("uregen", 1), false, nil),      // order 7: auto-retire forced
 					}
 					if rb != "" || rs != "" {
 						acts = append(acts, GovFeeParams(G, rb, rs))
